@@ -9,7 +9,7 @@ from .. import core, pscommon as pc, report_parser, seeds, toolrun
 LEVEL = "exploration"
 ENGINE = "progspace"
 TECHNIQUE = "bounded exhaustive exploration: (a) every mixed pack x direction x report-affecting option x suppression re-judged for bit-field and report agreement; (b) the command-line space of abidiff / abicompat / abipkgdiff: every option alone and every pair from a core, with correct, missing and non-existent operands; (c) translation-unit documents"
-RULE = ("(a) packs of C10, forward/backward, options in {none, --leaf-changes-only, --stat, --deleted-fns, --changed-fns, --added-fns, --deleted-vars, --no-added-syms, --harmless, --redundant}, with no / partial / total suppression; "
+RULE = ("(a) packs of C10 plus six single-unit pairs whose only net change is one removed / added / changed function or variable, forward/backward, options in {none, --leaf-changes-only, --stat, --deleted-fns, --changed-fns, --added-fns, --deleted-vars, --no-added-syms, --harmless, --redundant}, with no / partial / total suppression; "
         "(b) for each tool: every option alone and every pair of a 10-option core, each with {two good operands, one operand missing, a non-existent file, an unknown option, no operand, three operands}; "
         "(c) abi-instr (translation unit) documents sliced out of corpus documents, equal and different. Oracle: status in 0..15; bit 8 implies bit 4; bit 2 implies bit 1; no death by signal; a non-existent input sets bit 1; "
         "when bit 1 is clear: bit 4 is set exactly when the summary (or, for abipkgdiff, the output) lists at least one non-filtered change. Non-trivial: every run.")
@@ -56,6 +56,12 @@ def prepare(ctx):
 def stages(ctx):
     packs = pc.mixed_packs(ctx.quick)
     a = [{"kind": "pack", "pack": p} for p in (packs[::2] if ctx.quick else packs)]
+    # pairs with ONE kind of net change only (comparing them backwards turns removals into additions): in a mixed pack any
+    # other change sets the change bit and masks a wrong contribution of one kind
+    for spec, label in (({"k": "struct", "m": ["i"], "p": "var"}, "remove-variable"), ({"k": "struct", "m": ["i"], "p": "ptr"}, "remove-function"),
+                        ({"k": "struct", "m": ["i"], "p": "var"}, "insert-member-i@0"), ({"k": "struct", "m": ["i"], "p": "ptr"}, "insert-member-i@0"),
+                        ({"k": "union", "m": ["i", "d"], "p": "var"}, "remove-variable"), ({"sp": 0}, "remove-function")):
+        a.append({"kind": "pack", "pack": [[spec, label]]})
     b = []
     core_flags = ABIDIFF_FLAGS[:10]
     for f in ABIDIFF_FLAGS:
